@@ -161,11 +161,21 @@ class TabularMarkovDecisionProcess(MarkovDecisionProcess):
                 for ns, nsp in self._cached_next_state_dist(s, a).items():
                     if nsp == 0.:
                         continue
+                    if self._is_outside_successor_of_absorbing(s, ns):
+                        continue
                     nsi = self.state_list.index(ns)
                     tf[si, ai, nsi] = nsp
         tf.setflags(write=False)
         return tf
     
+    def _is_outside_successor_of_absorbing(self, s, ns) -> bool:
+        """
+        Reachability analysis does not expand absorbing states, so their
+        successors need not be in the state list; such transitions are never
+        taken and are left out of the matrices.
+        """
+        return self.is_absorbing(s) and ns not in self.state_list
+
     @cached_property
     def transition_table(self) -> StateActionNextStateTable:
         return StateActionNextStateTable.from_state_action_lists(
@@ -199,6 +209,8 @@ class TabularMarkovDecisionProcess(MarkovDecisionProcess):
                 ai = self.action_list.index(a)
                 for ns, p in self._cached_next_state_dist(s, a).items():
                     if p == 0.:
+                        continue
+                    if self._is_outside_successor_of_absorbing(s, ns):
                         continue
                     nsi = self.state_list.index(ns)
                     rf[si, ai, nsi] = self.reward(s, a, ns)
